@@ -14,6 +14,9 @@ SELF_SIMILAR = ["r", "a", "ra", "a_r", "r_a", "x"]
 ALIAS_STRINGS = ["A", "Core", "x.y", "a.b.c", r"\1", r"\g<0>", "$^.*+?()[]{}|", "back\\slash", "", "é", "r", "r.a"]
 
 
+_ALIAS_KIND = [0]
+
+
 def intercepted_draw(arch, **kwargs):
     """Calls arch.visualize(**kwargs) with the drawing backend and the layout replaced by recorders.  The two networkx
     functions are replaced wherever they are bound (networkx itself and every loaded pytestarch module), so it does not
@@ -95,6 +98,13 @@ def one_case(ctx, rng, nodes, edges, aliases, extra_kw, spacing):
     given = None
     if aliases is not None:
         given = dict(aliases)          # the caller's own dict object: it must come back unchanged
+        _ALIAS_KIND[0] += 1
+        if _ALIAS_KIND[0] % 5 == 0:
+            import collections
+            given = collections.defaultdict(str, aliases)     # still a dict[str, str]; looking a key up must not be how existence is tested
+        elif _ALIAS_KIND[0] % 5 == 1:
+            import collections
+            given = collections.OrderedDict(reversed(list(aliases.items())))
         kw["aliases"] = given
     st, rec = intercepted_draw(arch, **kw)
     if given is not None and given != aliases:
